@@ -89,7 +89,6 @@ func VerifH_TransportFault() {
 	conn.Close()
 }
 
-
 // VerifH_FaultWhileWriteParked: an Invoke's request write is parked inside the transport
 // (tiny writer buffer: the write happens inside RawWrite) when the transport fails on the
 // read side (or the peer goes away); the manager tears down, the parked write then
